@@ -71,6 +71,16 @@ pub mod verif_replay {
         let op = req["op"].as_str().unwrap_or("rewrite");
         let code = req["code"].as_str().unwrap_or("").to_string();
         let file = req["file"].as_str().unwrap_or("test.js").to_string();
+        if op == "print_js" {
+            // print_js(code, source_map, {source: None, source_map_comment}, config)
+            let config = config_from(&req["config"]);
+            let osm = crate::rewriter::OriginalSourceMap {
+                source: None,
+                source_map_comment: req["comment"].as_str().map(|s| s.to_string()),
+            };
+            let out = print_js(&code, req["source_map"].as_str().unwrap_or(""), &osm, &config).into_owned();
+            return json!({"ok": true, "content": out});
+        }
         if op == "normalize" {
             // parse + print with the same parser options, no transformation: used to compare ASTs textually
             let cfg = config_from(&json!({"methods": null}));
